@@ -53,6 +53,20 @@ def check_singleton(chk, prog):
                   'type %s is initialised dynamically: an instance created earlier during start-up is overwritten'
                   % v.get('t'))
     chk.require(n_static >= 2, 'static members of Singleton<> instantiations: %d' % n_static)
+    # R1d: the accessor keeps no state besides the instance pointer: a flag that is set before the constructor runs
+    # and cleared after it stays set when the constructor throws - every later access fails and the object is never
+    # constructed ("constructs it exactly once" also after a failed attempt)
+    for f in prog.functions:
+        if f.classq != 'celma::common::Singleton' or f.short != 'instance' or f.body is None:
+            continue
+        extra = set()
+        for ref, kind, node in effects.accesses(f):
+            vid = effects.var_id(ref)
+            if kind == 'write' and vid.startswith('celma::common::Singleton<') and not vid.endswith('::mpObject') and \
+                    not effects.is_self_synchronised(ref.get('dt', '')):
+                extra.add(vid.split('::')[-1])
+        chk.check(not extra, 'R1d', f.name, 'instance() writes no static state besides the instance pointer', f.loc(),
+                  'it also writes %s: an exception of the constructor leaves it behind' % sorted(extra))
     fns = [f for f in prog.functions if f.classq == 'celma::common::Singleton'
            and f.short in ('instance', 'reset')]
     chk.require(fns, 'no Singleton<T>::instance/reset instantiation found')
@@ -326,6 +340,7 @@ def run(chk):
     chk.rule('R1a', 'every access to the singleton pointer is synchronised', 4)
     chk.rule('R1b', 'exactly one construction site, null-tested under the lock', 2)
     chk.rule('R1c', 'the static members of the singleton are constant-initialised', 2)
+    chk.rule('R1d', 'instance() keeps no state besides the instance pointer', 2)
     chk.rule('R2a', 'thread-starting sub-object initialised after the captured flag', 2)
     chk.rule('R2b', 'flag is std::atomic', 2)
     chk.rule('R2c', 'flag set/cleared around the user function on every normal path', 2)
